@@ -308,7 +308,13 @@ def run(ctx, obls):
     for uname, os_ in by_unit.items():
         if uname not in units:
             raise Undecided("unknown verus unit %s" % uname)
-        res = run_unit(scratch, uname, units[uname])
+        try:
+            res = run_unit(scratch, uname, units[uname])
+        except Undecided as ex:
+            # lost anchor / construct outside the subset after an edit of /repo: undecided for this unit only
+            for o in os_:
+                out[o.id] = {"status": "undecided", "reason": "unit %s: %s" % (uname, ex), "backend": "verus 0.2026.09.13 / z3"}
+            continue
         for o in os_:
             st, reason, secs, diag = classify(uname, res, o.extra["fn"])
             oc = {"status": st, "reason": reason, "seconds": round(secs, 3), "backend": "verus 0.2026.09.13 / z3",
